@@ -60,6 +60,19 @@ CHECKS = {
          'replaced by the type rank during symbolic runs (sound if equal items hash equal, property C14). '
          'Witness use by rules is asserted in C04. Counterexamples replayed concretely in a fresh process.',
     technique='proxy-based symbolic execution (pysymex) of Branch.append/copy with z3 path feasibility'),
+ 'C08': dict(
+    engine=E1, category='model_checking', design='6 C08',
+    text='The real Model of every logic runs under the proxy symbolic executor on frames filled with symbolic '
+         'truth values (z3 integer per letter / predication / uninterpreted sentence and world) and symbolic '
+         'initial access pairs; after the real finish(), z3 decides per path that value_of equals the documented '
+         'recursion (term built by engine/semz3 from the logic\'s own tables and documented generalised '
+         'connectives over the model\'s finished access relation); the finished relation is compared with the '
+         'required closure for every initial relation; the classical identity/existence completion is explored '
+         'over all orders of set_value calls; minfloor/maxceil on symbolic integer lists.',
+    note='Bounds: 2 (quick) / 3 worlds, 2 / 3 constants, sentence depth 2, 3 / 4 set_value calls. Stub: symbolic '
+         'values are placed into frames directly because the setters compare with `is`. Table correctness is C07; '
+         'FDE-family quantifiers are compared with the documented min/max.',
+    technique='proxy-based symbolic execution (pysymex) of the evaluator + SMT equivalence with the documented recursion'),
  'C14': dict(
     engine=E1, category='model_checking', design='6 C14',
     text='The real comparison kernel (orderitems, rich comparisons, Argument wrapper) runs on arbitrary '
@@ -114,6 +127,15 @@ CHECKS = {
          'and the reference model in checks/c18.py. Counterexamples are replayed concretely on the real '
          'containers (recorded picks + witness values) in a fresh interpreter.',
     technique='proxy-based symbolic execution (pysymex) with z3 path feasibility; bounded, exhaustive'),
+ 'C20': dict(
+    engine=E1, category='model_checking', design='6 C20',
+    text='get_data() of the real Model runs on the symbolic models of C08 (symbolic truth values, symbolic access '
+         'pairs); per path the export is compared with the real evaluator (worlds, access pairs, value of every '
+         'letter/uninterpreted sentence, extension and anti-extension membership of every tuple, sortedness, '
+         'determinism); models read from open branches of real tableaux get the same comparison concretely.',
+    note='Bounds: 2 worlds, 2 constants, 4-5 model contents per logic; 25 arguments per logic for branch models. '
+         'value_of is the reference, as the property states.',
+    technique='proxy-based symbolic execution (pysymex) of the export against the evaluator'),
 }
 
 NOT_YET = 'check not built yet in this round (work in progress; planned in DESIGN.md section 6)'
